@@ -220,12 +220,12 @@ fn typed_rules(h: &Hist, ty: &str, out: &mut POut) {
     // 1. the key builder: identity for integers, stable and borrow-independent for strings
     for km in &h.keymaps {
         for (k, i, c, bi, bc) in km {
-            if ty != "string" {
+            if !matches!(ty, "string" | "boxstr" | "arcstr") {
                 if *i != *k || *bi != *k || *c != 0 || *bc != 0 {
                     out.violations.push(violk("C18", "R-transparent-not-identity", 0, *k, "TransparentKeyBuilder does not map an integer key to itself", format!("type {}: key {:#x} -> owned ({:#x},{:#x}) borrowed ({:#x},{:#x})", ty, k, i, c, bi, bc)));
                 }
             } else if *i != *bi || *c != 1 || *bc != 1 {
-                out.violations.push(violk("C18", "R-borrowed-form-hashes-differently", 0, *k, "a String key and its &str form map to different (index, conflict) pairs", format!("key id {}: owned index {:#x} borrowed index {:#x} conflicts agree={}", k, i, bi, c)));
+                out.violations.push(violk("C18", "R-borrowed-form-hashes-differently", 0, *k, "an owned key (String, Box<String>, Arc<String>) and its borrowed form (&str, &String) map to different (index, conflict) pairs", format!("key id {}: owned index {:#x} borrowed index {:#x} conflicts agree={}", k, i, bi, c)));
             }
         }
     }
@@ -252,7 +252,7 @@ fn typed_rules(h: &Hist, ty: &str, out: &mut POut) {
         out.violations.push(w);
     }
     out.nontrivial |= t.nontrivial || h.ops.len() > 4;
-    *out.probes.entry(if ty == "string" { "string_key_run" } else if ty.starts_with('i') { "signed_integer_key_run" } else { "unsigned_integer_key_run" }).or_default() += 1;
+    *out.probes.entry(if matches!(ty, "string" | "boxstr" | "arcstr") { "string_key_run" } else if ty.starts_with('i') { "signed_integer_key_run" } else { "unsigned_integer_key_run" }).or_default() += 1;
     if h.plan.universe.iter().any(|k| (*k as i64) < 0) && ty.starts_with('i') {
         *out.probes.entry("negative_key_used").or_default() += 1;
     }
